@@ -31,7 +31,6 @@ Check ==
         /\ closed = -1
         /\ \A i \in DOMAIN drv : drv[i].k = "none" /\ st.closing /\ role = "server"
         /\ (role = "server" /\ st.closing) => drv # <<>>       \* peer GOAWAY and nothing in flight: accept ends
-        /\ st.mustStop \subseteq stops
         /\ ProbeOk
 
 Judge(tag) == IF ok /\ ~Check THEN <<FALSE, tag>> ELSE <<ok, why>>
@@ -72,8 +71,11 @@ Bad == /\ E.ev \in {"panic", "late", "livelock", "harness_panic"}
        /\ ok' = FALSE /\ why' = IF ok THEN <<"event", E.ev>> ELSE why
        /\ UNCHANGED <<scn, role, st, closed, drv, probe, stops>>
 
+\* RFC 9114 6.2: a stream of unknown type is either aborted (STOP_SENDING) or its data discarded - never left unread
+UnknownStreamsOk == st.err # NoErr \/ \A sid \in st.mustStop : sid \in stops \/ ~(\E i \in DOMAIN E.unread : E.unread[i].sid = sid)
 Quiesce == /\ E.ev = "quiesce"
-           /\ LET j == Judge(<<"at quiescence">>) IN
+           /\ LET j0 == Judge(<<"at quiescence">>)
+                  j == IF j0[1] /\ ~UnknownStreamsOk THEN <<FALSE, <<"bytes of an unknown stream left unread and not stopped">>>> ELSE j0 IN
                  /\ ok' = j[1] /\ why' = j[2]
                  /\ IF j[1] THEN TRUE ELSE PrintT(<<"REJECT", scn, ToJson(j[2])>>)
            /\ UNCHANGED <<scn, role, st, closed, drv, probe, stops>>
